@@ -19,7 +19,7 @@ PROPS = {
         "level": "fault_enumeration",
         "rule": RULE_L + " Sweep batches: one workload per index, one run per enumerated fault position (every aten-level and module-level position of the marked forward, a seeded sample of line-level positions).",
         "assumptions": ASSUME_COMMON + ["faults never land inside Calibration.__enter__/__exit__ themselves; contexts are left in LIFO order"],
-        "wall_cap": {"quick": 900, "thorough": 7200},
+        "wall_cap": {"quick": 2400, "thorough": 14400},
         "shrink_budget": 90,
         "batches": {
             "quick": [
@@ -38,7 +38,7 @@ PROPS = {
 
 
 
-def _L(level, quick, thorough, extra_rule="", extra_assume=(), wall=(900, 7200), shrink=90):
+def _L(level, quick, thorough, extra_rule="", extra_assume=(), wall=(2400, 14400), shrink=90):
     return {
         "engine": "L",
         "level": level,
